@@ -326,14 +326,15 @@ fn cheating_prover<C: Cs>(ctx: &Ctx, idx: u64) {
         // bounds the cheating prover may claim in its larger-interval sub-proofs: the protocol's own, wider ones, and
         // the one the pinned tree used (2^T * rmax, F15). Its sub-prover answers for |remainder| < bound * 2^(l-3).
         let own = remainder_bound(&a, &b);
-        let claims: Vec<(&str, Option<Integer>)> = vec![
-            ("own", None),
-            ("own*2^8", Some(Integer::from(&own << 8u32))),
-            ("own*2^40", Some(Integer::from(&own << 40u32))),
-            ("own*2^(T/2)", Some(Integer::from(&own << (t / 2)))),
-            ("2^T*max(|b|,1)", Some(Integer::from(&b.clone().abs().max(one.clone()) << t))),
-            ("own*2^T", Some(Integer::from(&own << t))),
-        ];
+        // a ladder in steps of 2^4 up to own * 2^(T+16): the cheater claims the SMALLEST bound under which its sub-prover
+        // still answers, so that a verifier whose bound is too wide by any factor sees responses inside its window
+        let mut claims: Vec<(String, Option<Integer>)> = vec![("own".to_string(), None)];
+        let mut k = 4u32;
+        while k <= t + 16 {
+            claims.push((format!("own*2^{k}"), Some(Integer::from(&own << k))));
+            k += 4;
+        }
+        claims.push(("2^T*max(|b|,1)".to_string(), Some(Integer::from(&b.clone().abs().max(one.clone()) << t))));
         let mut targets: Vec<(&str, Integer)> = vec![
             ("control:a", a.clone()), ("control:b", b.clone()), ("control:mid", Integer::from(&a + Integer::from(&w / 2u32))),
             ("a-1", Integer::from(&a - 1u32)), ("a-2", Integer::from(&a - 2u32)), ("a-2^20", Integer::from(&a - (one.clone() << 20u32))),
@@ -354,7 +355,7 @@ fn cheating_prover<C: Cs>(ctx: &Ctx, idx: u64) {
             let (ra, rb) = (Integer::from(&xa - sa.clone().pow(2)), Integer::from(&xb - sb.clone().pow(2)));
             // the smallest claimed bound under which the sub-prover can answer for both remainders
             let need = ra.clone().abs().max(rb.clone().abs());
-            let Some((cn, claim)) = claims.iter().find(|(_, c)| need <= Integer::from(c.as_ref().unwrap_or(&own) << (L_ - 3))) else {
+            let Some((cn, claim)) = claims.iter().find(|(_, c)| need <= Integer::from(c.as_ref().unwrap_or(&own) << (L_ - 2))) else {
                 ctx.count("cheating_targets_beyond_the_sub_prover's_reach", 1);
                 continue;
             };
@@ -362,18 +363,33 @@ fn cheating_prover<C: Cs>(ctx: &Ctx, idx: u64) {
                 ctx.inconclusive("C16: honest remainders exceed the protocol's own bound (harness formula out of date?)");
                 continue;
             }
-            ctx.count(&format!("cheating_prover_claimed_bound[{cn}]"), 1);
-            let rr = rand_int_bits(&mut r, C::ln);
-            let c = CL03Commitment { value: commit(&x, &rr, &g, &h, &n), randomness: rr };
-            let p = ctx.call("Boudot::hook_prove_with_decomposition", &case, None, || Ok::<_, ()>(Rp::hook_prove_with_decomposition::<Sha256>(&x, &c, &g, &h, &n, &a, &b, &sa, &sb, claim.as_ref())));
-            let Some(p) = p.value else {
+            ctx.count(&format!("cheating_prover_claimed_bound[{}]", if claim.is_none() { "own" } else { "wider" }), 1);
+            let _ = cn;
+            // a response lands inside a too-wide verifier window only with some probability: several attempts per target
+            let attempts = if control { 1 } else { 4 };
+            let mut last = None;
+            let mut built = false;
+            for _ in 0..attempts {
+                let rr = rand_int_bits(&mut r, C::ln);
+                let c = CL03Commitment { value: commit(&x, &rr, &g, &h, &n), randomness: rr };
+                let p = ctx.call("Boudot::hook_prove_with_decomposition", &case, None, || Ok::<_, ()>(Rp::hook_prove_with_decomposition::<Sha256>(&x, &c, &g, &h, &n, &a, &b, &sa, &sb, claim.as_ref())));
+                let Some(p) = p.value else { continue };
+                built = true;
+                let v = ctx.call("Boudot::verify", &case, None, || Ok::<_, ()>(p.verify::<Sha256>(&g, &h, &n, &a, &b)));
+                let accepted = v.value == Some(true);
+                last = Some(v);
+                if accepted {
+                    break;
+                }
+            }
+            if !built {
                 if control {
                     ctx.inconclusive("C16: the cheating-prover hook failed on an honest decomposition (harness / hook problem)");
                 }
                 ctx.count("cheating_prover_could_not_build_a_proof", 1);
                 continue;
-            };
-            let v = ctx.call("Boudot::verify", &case, None, || Ok::<_, ()>(p.verify::<Sha256>(&g, &h, &n, &a, &b)));
+            }
+            let v = last.unwrap();
             if control {
                 if v.value == Some(true) {
                     ctx.count("cheating_prover_controls_accepted", 1);
